@@ -160,8 +160,8 @@ def is_indeterminate(el):
         if not nm:
             return True
         owner = form_owner(el)
-        if owner is not None and (nested_form_inside(owner) or form_owner(owner) is not None):
-            return None
+        # nested forms (html.parser and API-built trees keep them): a control belongs to its NEAREST form ancestor, so the radios of an inner form
+        # are not members of the outer form's groups
         scope = owner if owner is not None else doc_root(el)
         pool = list(descendants_in_doc(scope))
         if scope is not owner:
